@@ -3,6 +3,8 @@ CONSTANTS
   NSites = 8
   GeomSel = {"np1", "np2x"}
   ExportSites = 5
+  MaxCalls = 1
+  LabelWrites = "none"
   Variant = "fixed"
 INVARIANT Untouched
 INVARIANT Repaired
@@ -10,4 +12,5 @@ INVARIANT OrderIndependent
 INVARIANT NoSecondHand
 INVARIANT ZeroCase
 INVARIANT NotYet
+INVARIANT LabelsKept
 CHECK_DEADLOCK FALSE
